@@ -14,6 +14,10 @@
 //!     explicit output paths <dir>/<name>.y.rs, <dir>/<name>.l.rs.
 //!     -> `OK` | `ERR <hexmsg>` | `PANIC <hexmsg>`
 //!
+//! `lexgen <dirhex> <name> [lf:<flag>=<0|1|num> ...]`
+//!     <dir>/<name>.l exists; runs CTLexerBuilder alone (no parser) to <dir>/<name>.l.rs — used for the
+//!     static check of the quoted flags of lexerdef().   -> `OK` | `ERR <hexmsg>` | `PANIC <hexmsg>`
+//!
 //! `rt <yfilehex> <lfilehex> yk=G|U|O rec=C|N par=<u64>|- tpl=<hex template> # <inputhex> # <inputhex> ...`
 //!     the run-time pipeline on the same sources: YaccGrammar + from_yacc + LRNonStreamingLexerDef::from_str
 //!     + set_rule_ids(tokens_map) + RTParserBuilder::{parse_actions, parse_map}.
@@ -198,22 +202,53 @@ fn mode_gen(fields: &[&str]) -> String {
         for o in &opts {
             if let Some(fl) = o.strip_prefix("lf:") {
                 let (k, v) = fl.split_once('=').unwrap();
-                let b = v == "1";
-                lb = match k {
-                    "allow_wholeline_comments" => lb.allow_wholeline_comments(b),
-                    "dot_matches_new_line" => lb.dot_matches_new_line(b),
-                    "multi_line" => lb.multi_line(b),
-                    "posix_escapes" => lb.posix_escapes(b),
-                    "octal" => lb.octal(b),
-                    "swap_greed" => lb.swap_greed(b),
-                    "ignore_whitespace" => lb.ignore_whitespace(b),
-                    "unicode" => lb.unicode(b),
-                    "case_insensitive" => lb.case_insensitive(b),
-                    "size_limit" => lb.size_limit(v.parse().unwrap()),
-                    "dfa_size_limit" => lb.dfa_size_limit(v.parse().unwrap()),
-                    "nest_limit" => lb.nest_limit(v.parse().unwrap()),
-                    _ => panic!("unknown lexer flag"),
-                };
+                lb = apply_lex_flag(lb, k, v);
+            }
+        }
+        lb.build().map(|_| ()).map_err(|e| err_string(&*e))
+    });
+    match r {
+        Err(p) => format!("PANIC {}", hex(&p)),
+        Ok(Err(m)) => format!("ERR {}", hex(&m)),
+        Ok(Ok(())) => "OK".to_string(),
+    }
+}
+
+// ---- lexgen --------------------------------------------------------------
+
+fn apply_lex_flag<'a>(lb: CTLexerBuilder<'a, LT>, k: &str, v: &str) -> CTLexerBuilder<'a, LT> {
+    let b = v == "1";
+    match k {
+        "allow_wholeline_comments" => lb.allow_wholeline_comments(b),
+        "dot_matches_new_line" => lb.dot_matches_new_line(b),
+        "multi_line" => lb.multi_line(b),
+        "posix_escapes" => lb.posix_escapes(b),
+        "octal" => lb.octal(b),
+        "swap_greed" => lb.swap_greed(b),
+        "ignore_whitespace" => lb.ignore_whitespace(b),
+        "unicode" => lb.unicode(b),
+        "case_insensitive" => lb.case_insensitive(b),
+        "size_limit" => lb.size_limit(v.parse().unwrap()),
+        "dfa_size_limit" => lb.dfa_size_limit(v.parse().unwrap()),
+        "nest_limit" => lb.nest_limit(v.parse().unwrap()),
+        _ => panic!("unknown lexer flag"),
+    }
+}
+
+fn mode_lexgen(fields: &[&str]) -> String {
+    let dir = unhex(fields[0]);
+    let name = fields[1].to_string();
+    let opts: Vec<String> = fields[2..].iter().map(|s| s.to_string()).collect();
+    let r = catch(move || {
+        let d = PathBuf::from(&dir);
+        let mut lb = CTLexerBuilder::new()
+            .lexer_path(d.join(format!("{}.l", name)))
+            .output_path(d.join(format!("{}.l.rs", name)))
+            .show_warnings(false);
+        for o in &opts {
+            if let Some(fl) = o.strip_prefix("lf:") {
+                let (k, v) = fl.split_once('=').unwrap();
+                lb = apply_lex_flag(lb, k, v);
             }
         }
         lb.build().map(|_| ()).map_err(|e| err_string(&*e))
@@ -456,6 +491,7 @@ fn main() {
         match fields[0] {
             "subst" => mode_subst(&fields[1..]),
             "gen" => mode_gen(&fields[1..]),
+            "lexgen" => mode_lexgen(&fields[1..]),
             "rt" => mode_rt(line),
             _ => "BADMODE".to_string(),
         }
